@@ -1165,3 +1165,77 @@ func runC16HeadersBehindCompression(c *Ctx) {
 		c.Undecided("client construction with header and compression wrappers", "-", "not found")
 	}
 }
+
+// ---------- C16.R31: the client compresses the whole body ----------
+func init() { addRules("C16", runC16WholeBodyCompressed) }
+
+func runC16WholeBodyCompressed(c *Ctx) {
+	p := c.P
+	c.Rule("R31", "GATE", "the compressing round tripper compresses the body it was given, all of it: where it cuts the request body to a declared length (io.LimitReader / io.CopyN / a LimitedReader on the way to the compressor) it does so only on the side where that length is known to be positive – Content-Length −1 means `unknown` (a streamed body, a request forwarded by a reverse proxy), a limit of −1 reads nothing, an empty stream is compressed and sent with a correct Content-Encoding, and the server answers 200 for a body that was silently lost", 1)
+	pk := p.Pkg("config/confighttp")
+	if pk == nil {
+		c.Anchor("config/confighttp")
+		return
+	}
+	n := 0
+	for _, fn := range p.AllSrcFuncs(pk) {
+		if fn.Parent() != nil || fn.Name() != "RoundTrip" || fn.Signature.Recv() == nil {
+			continue
+		}
+		// the compressing one: it reads the request's Body and its receiver type has a field of a compressor type
+		st := derefStruct(fn.Signature.Recv().Type())
+		if st == nil {
+			continue
+		}
+		isComp := false
+		for i := 0; i < st.NumFields(); i++ {
+			if nt := namedOf(st.Field(i).Type()); nt != nil && strings.Contains(strings.ToLower(nt.Obj().Name()), "compress") {
+				isComp = true
+			}
+			if pt, ok := st.Field(i).Type().(*types.Pointer); ok {
+				if nt := namedOf(pt.Elem()); nt != nil && strings.Contains(strings.ToLower(nt.Obj().Name()), "compress") {
+					isComp = true
+				}
+			}
+		}
+		if !isComp {
+			continue
+		}
+		n++
+		var bad ssa.Instruction
+		for _, ci := range callsNamed(fn, func(f *types.Func) bool {
+			return f.FullName() == "io.LimitReader" || f.FullName() == "io.CopyN"
+		}) {
+			// the limit
+			lim := ci.Common().Args[len(ci.Common().Args)-1]
+			if f := calleeOf(ci); f != nil && f.FullName() == "io.CopyN" {
+				lim = ci.Common().Args[2]
+			}
+			pos := false
+			for _, g := range guardsOf(ci.Block()) {
+				op, x, y, ok := cmpOf(g)
+				if !ok {
+					continue
+				}
+				k := func(v ssa.Value) (int64, bool) { return constInt(v) }
+				if (op == token.GTR || op == token.GEQ) && sameValue(x, lim) {
+					if kv, ok := k(y); ok && (kv > 0 || op == token.GTR && kv == 0) {
+						pos = true
+					}
+				}
+				if (op == token.LSS || op == token.LEQ) && sameValue(y, lim) {
+					if kv, ok := k(x); ok && (kv > 0 || op == token.LSS && kv == 0) {
+						pos = true
+					}
+				}
+			}
+			if !pos {
+				bad = ci.(ssa.Instruction)
+			}
+		}
+		c.Check(bad == nil, "body compressed by "+fnName(fn)+" is not cut to an unknown length", p.Pos(fn.Pos()), "no length limit, or only where the length is positive", "the body is limited to the declared Content-Length ("+posOf(p, bad)+") on a side where it can be −1 (unknown): a streamed request is compressed as empty and the whole payload is lost while the server answers 200")
+	}
+	if n == 0 {
+		c.Undecided("compressing round tripper", "-", "not found")
+	}
+}
